@@ -37,7 +37,7 @@ CLAIMS = {
              "word); the pairing of a key with the following word or the glued rest of its word is decided by an exhaustive "
              "table over value mode x what follows (Engine B, shared with C02-R12); the tokeniser's decision when the rest of "
              "a word is a value is evaluated for every combination of its inputs (after '--key=' always, a requested "
-             "value only inside a word; a word is a control element only if it IS one of '(' ')' '!' (table over word length x first character) - whatever character the rest starts with, so that a glued negative value is a value, and whether or not '--' was seen); a stored value is also reported as given (hasValue). The full equivalence of all command-line spellings (tokenisation by the "
+             "value only inside a word; a word is a control element only if it IS one of '(' ')' '!' (table over word length x first character) - whatever character the rest starts with, so that a glued negative value is a value, and whether or not '--' was seen); a stored value is also reported as given (hasValue); the stored value never depends on the previous content of the destination; the key algebra (operator== / mismatch truth tables, shared with C05-R3). The full equivalence of all command-line spellings (tokenisation by the "
              "ArgListIterator state machine) is a relation over an exponential input space and is NOT decided.",
         note="trusts clang AST/CFG, boost::lexical_cast; spelling equivalence not covered",
         technique="static analysis: who-may-write effect facts, def-use of stores, who-may-call"),
@@ -53,7 +53,7 @@ CLAIMS = {
              "pairing of a key with its value is evaluated abstractly for every value mode x {nothing, value, key} "
              "following (required without value throws, optional never takes a glued rest, 'command' ends the "
              "evaluation). "
-             "Requires/excludes entries carry the kind they were defined with (ConstraintRequires / ConstraintExcludes pass the kind they are named after); a handler constraint is registered only after validated(). Path rules quantify over all command lines because they quantify over all paths.",
+             "Requires/excludes entries carry the kind they were defined with (ConstraintRequires / ConstraintExcludes pass the kind they are named after); a handler constraint is registered only after validated(); a tuple value is converted to the type of the element it belongs to (element index = member counter of the values stored so far); the disjoint constraint is decided for values in any order (an adapter of an unsorted container never reaches a merge-shaped helper without an is_sorted() guard). Path rules quantify over all command lines because they quantify over all paths.",
         note="trusts clang AST/CFG and the extractor; exceptions are the only failure channel; value conversion "
              "itself (boost::lexical_cast) and regex/file-system check semantics are not decided",
         technique="static analysis: CFG must-pass-through / dominance / sibling agreement over resolved calls"),
@@ -67,7 +67,7 @@ CLAIMS = {
              "on that information (the parameter in assignValue, a member set from it in the list loops of the "
              "multi-value destinations), canonical key for constraint matching, every successful assign() makes hasValue() "
              "true (mandatory check), value constraints relate only values that "
-             "were given (compareValue() reachable only through hasValue()-true edges of both arguments); the complete key of a sub-group argument is not pre-empted by a normal argument it abbreviates (lookup table over both key containers, shared with C05-R5); the repeatable built-in arguments (end-of-values marker, listing arguments) are defined without upper cardinality. The general statement is not "
+             "were given (compareValue() reachable only through hasValue()-true edges of both arguments); the complete key of a sub-group argument is not pre-empted by a normal argument it abbreviates (lookup table over both key containers, shared with C05-R5); the repeatable built-in arguments (end-of-values marker, listing arguments) are defined without upper cardinality; the cursor invariant of the tokeniser (every word is analysed from its first character, shared with C04-R6). The general statement is not "
              "decidable statically and is not claimed.",
         note="trusts clang AST/CFG; boost::lexical_cast converts every representable value; interaction of arbitrary "
              "checks/formats/constraints is not decided", also=("engine B (boolshape.py)",),
@@ -90,7 +90,7 @@ CLAIMS = {
              "outside the program: a loop driven by a stream read must end at the first failed read (end of file or "
              "error), and for the element loop over an argument vector: every step of the argument iterator is proved to move "
              "the cursor forward (word index, then character position; the nested step on a lone '--' by induction). "
-             "Termination of the remaining loops is NOT decided. Downcast provenance: every pointer that a Handler member static_casts to the sub-group argument class comes, on every reaching definition, out of the container that only receives sub-group objects (or is null); container.erase( it) with the iterator of a search only over an edge on which it != end() is known.",
+             "Termination of the remaining loops is NOT decided. Downcast provenance: every pointer that a Handler member static_casts to the sub-group argument class comes, on every reaching definition, out of the container that only receives sub-group objects (or is null); container.erase( it) with the iterator of a search only over an edge on which it != end() is known; a noexcept repository function calls (outside try) no repository function from which an exception can escape.",
         note="trusted base: clang front end, extractor, cv/lin.py + cv/bounds.py and its models of "
              "strlen/strcpy/new[]/std::vector/std::string; argc >= 1, argv words are C strings shorter than 2 GiB, "
              "argv[argc] is null",
@@ -122,7 +122,7 @@ CLAIMS = {
              "C array, std::array, tuple, bitset, vector<bool>, DynamicBitset): the order clear (once, flag reset) -> "
              "(check -> format -> convert -> duplicate test -> add)* -> sort (after the loop, if requested) is decided by "
              "reachability inside one iteration of the loop CFG; the trait constants of every ContainerAdapter "
-             "specialisation are compared with the shape of its sort()/contains()/addValue()/clear(); the four key-value adapters insert the pair ( key, value) and touch the destination in no other way (earlier content stays, siblings agree); membership tests compare with the end marker and search the given value; the sort of a fixed-size destination covers exactly [0, fill counter); capacity and growth "
+             "specialisation are compared with the shape of its sort()/contains()/addValue()/clear(); the four key-value adapters insert the pair ( key, value) and touch the destination in no other way (earlier content stays, siblings agree); membership tests compare with the end marker and search the given value; the sort of a fixed-size destination covers exactly [0, fill counter); the observers of an adapter (contains / hasIntersection / toString) modify no destination; the tuple element is selected by the number of values stored so far; capacity and growth "
              "of fixed-size destinations by Engine C; duplicate test over the filled prefix; routing of free values by "
              "guards. Equality of the final container with the fold over all cuts is not decided.",
         note="trusts clang AST/CFG; standard containers and boost::tokenizer behave as documented",
@@ -142,7 +142,7 @@ CLAIMS = {
              "is written by no function that runs once per chunk of words, so a value list continues across file "
              "lines / environment / argv exactly as across argv words; the line loop of the argument file runs for every "
              "line the read delivers (incl. an unterminated last line); the sub-group handler a word is dispatched to "
-             "evaluates it in the read mode of the dispatching handler; both constructors of ArgString2Array hand the word list of the splitter to the argv array unmodified (no word removed, added or rewritten). Other quoting disciplines and "
+             "evaluates it in the read mode of the dispatching handler; both constructors of ArgString2Array hand the word list of the splitter to the argv array unmodified (no word removed, added or rewritten); the value stored into a scalar destination never depends on its previous content (a flag stores the configured value: a flag from a file given again on the command line stays set). Other quoting disciplines and "
              "value equality between sources are not decided.",
         note="trusts clang AST/CFG; std::string append/clear semantics; round trip claimed for backslash escaping only",
         also=("engine A (cfg.py)", "engine C (lin.py, bounds.py)"),
@@ -174,7 +174,7 @@ CLAIMS = {
              "touch no written, mutable object with static storage duration unless a lock on a static mutex is held; "
              "no non-reentrant libc call; per-handler constraint container; no function-local static on those paths is "
              "initialised from a parameter, a local or the object (a process-wide memo of the first caller's data "
-             "is not a race but breaks 'as if alone'); every call from a Handler member into the process-wide group registry is guarded by the membership flag (three frozen, reasoned exceptions); no function that sets process-wide state (locale, environment, working directory, handlers) on handler paths. Holds for every schedule because it is a "
+             "is not a race but breaks 'as if alone'); every call from a Handler member into the process-wide group registry is guarded by the membership flag (three frozen, reasoned exceptions); no function that sets process-wide state (locale, environment, working directory, handlers) on handler paths; no function-local static (smart) pointer to a non-const object is handed out. Holds for every schedule because it is a "
              "statement about all paths of all reachable functions; it does not execute interleavings.",
         note="trusts clang AST/CFG, the extractor, thread-safety of boost/libstdc++ internals; std::function targets "
              "supplied by users are outside the claim",
@@ -202,7 +202,7 @@ CLAIMS = {
              "be resolved and compared with the reference bit vector for every operand, size and shift distance. "
              "Iteration order: forward()/reverse() of the iterator base are proved to move to the NEXT set position "
              "(each step tests exactly the neighbouring position, continues only over a clear bit inside the set, stops "
-             "only at a set bit or the end marker) and operator++/-- of both iterator kinds step through them (prefix forms return the stepped iterator, postfix forms a copy of *this taken before the step on every path); every "
+             "only at a set bit or the end marker) and operator++/-- of both iterator kinds step through them (prefix forms return the stepped iterator, postfix forms a copy of *this taken before the step on every path); the member templates taking a std::bitset copy every element in every iteration; every "
              "begin()/cbegin()/rbegin()/crbegin() overload is executed symbolically against that contract: the candidates "
              "examined start at position 0 resp. size() - 1 on every path.",
         note="trusted base: clang front end, extractor, cv/lin.py + cv/bounds.py, the size model of std::vector<bool>, "
@@ -284,7 +284,7 @@ CLAIMS = {
              "object must re-target its description printer - this last rule reports an open, recorded finding on "
              "Handler::setUsageParams, see known_findings.json); every call of the visibility predicate passes the current "
              "settings in their places (column-width pass == printing pass); default value, check, constraint and hidden "
-             "mark each depend on their own property only; every display setting is switched by the argument / start flag named after it (UsageParams binders and setters touch the member their reader returns, shortOnly/longOnly values, Handler forwarders call the same-named UsageParams function, the hfUsage*/hfArg* start flags guard exactly their function); isMandatory/isHidden/isDeprecated report one stored flag that every setter of the property sets; the data behind the usage extras (checks, constraints, flags) is modified by the definition-time API only; the description text goes through the "
+             "mark each depend on their own property only; every display setting is switched by the argument / start flag named after it (UsageParams binders and setters touch the member their reader returns, shortOnly/longOnly values, Handler forwarders call the same-named UsageParams function, the hfUsage*/hfArg* start flags guard exactly their function); isMandatory/isHidden/isDeprecated report one stored flag that every setter of the property sets; the data behind the usage extras (checks, constraints, flags) is modified by the definition-time API only; each pass prints its own caption member and setCaption() sets them in the documented order; the description text goes through the "
              "word loop of TextBlock, whose no-word-lost rule (C17-R1) is run here as well. Layout is not decided.",
         note="trusts clang AST/CFG; TypedArgBase property getters report the configured properties",
         also=("engine A (cfg.py)",),
